@@ -146,7 +146,10 @@ impl Wake for HandlerWaker {
         if self.0 < g.ready.len() {
             g.ready[self.0] = true;
         }
-        if g.status[T] == Status::Idle {
+        // Only a wake of a handler that is still alive makes the task thread runnable (a finished
+        // future's waker may still be invoked late; it must not leave T marked Running forever).
+        let alive = g.alive.get(self.0).copied().unwrap_or(false);
+        if alive && g.status[T] == Status::Idle {
             g.status[T] = Status::Running;
         }
         c.cv.notify_all();
@@ -212,6 +215,15 @@ fn task_thread(state: Arc<ServerState>, labels: Vec<String>, mut factory: EventF
                     break;
                 }
                 g.status[T] = Status::Running;
+                // A single `notify_waiters()` wakes several handlers one after the other: do not
+                // look at the ready set before the worker has finished its step (is parked at its
+                // next point), otherwise the set of poll options would depend on timing.
+                while !g.stop && matches!(g.status[W], Status::Running) {
+                    g = c.cv.wait(g).unwrap();
+                }
+                if g.stop {
+                    break;
+                }
             }
             continue;
         }
